@@ -3,7 +3,7 @@ C18 -- StringGrader matches exactly the inputs equal after the configured cleani
 accept_any / accept_nonempty minimums; validation patterns must match the whole
 cleaned submission.
 
-ENUM only.  Every case builds (or reuses, for the big pair families) a real
+ENUM only.  Every case builds (or reuses, for cases with the same configuration) a real
 StringGrader, calls it as edX would -- grader(None, submission) -- and compares the
 verdict / message / error with the reference model in mcv/refs/c18_ref.py, which is
 written from the property statement and docs/string_grader.md and never calls the
@@ -31,6 +31,10 @@ ASSUMPTIONS = [
     'oracle demands a verdict only where every reading agrees',
     'cased non-ASCII letters limited to E-acute, N-tilde and Cyrillic De (simple one-to-one case pairs)',
     'pattern languages are hand-written predicates, cross-checked at start-up against re.fullmatch on the pool',
+    'with case_sensitive off the validation pattern sees the LOWER-cased submission (the cleaned form); an '
+    'implementation folding to upper case would be flagged by the validation families',
+    'graders are reused across cases with the same configuration, as edX reuses one grader object (history '
+    'independence itself is property C11)',
     'wording of the minimum messages is only required to contain "<have>/<required>" and the unit (word/character)',
     'when a submission fails validation and the minimums, either prescribed refusal is accepted',
     'that a non-conforming expected answer is a ConfigError is taken from docs/string_grader.md (family '
